@@ -66,14 +66,14 @@ def obligations(ctx):
     #  failure, see DESIGN section 12 - and an unwinding failure is property-level for C07)
     maxlen = 2
     pay = 8 if ctx.tier == "quick" else 12
-    for ln in range(1, maxlen + 1):
-        for tags in itertools.product(reps, repeat=ln):
-            tags = "".join(tags)
-            if not any(t in "sb" for t in tags):
-                continue
+    tagsets = ["".join(t) for ln in range(1, maxlen + 1) for t in itertools.product(reps, repeat=ln)]
+    tagsets = [t for t in tagsets if any(c in "sb" for c in t)]
+    tagsets += ["i[ii]", "s[ib]", "[b]i", "[i]h[T]s"]          # array brackets in the middle: index <-> payload bookkeeping of arg_off/rtosc_type
+    for tags in tagsets:
+        if True:
             pre = [0x2f, 0x61, 0, 0, 0x2c] + [ord(t) for t in tags]
             pre += [0] * (4 - len(pre) % 4)
-            n = len(pre) + pay + 4 * sum(1 for t in tags if t == "i") + 8 * sum(1 for t in tags if t == "h")
+            n = len(pre) + (pay if any(t in "sb" for t in tags) else 0) + 4 * sum(1 for t in tags if t == "i") + 8 * sum(1 for t in tags if t == "h")
             obls.append(Obl("C07.accept_structured.%s.n%02d" % (tags, n), "C07", "harness/C07/accept_decodable.c",
                             entry="h_accept_decodable",
                             defines={"RTOSC_C": raw, "N": str(n), "PREFIX_BYTES": ",".join(str(x) for x in pre)}, mode="bounded",
